@@ -6,6 +6,7 @@ def dispatchWrapC (line : String) : String :=
   | "lookup" :: args => handleLookup args
   | "asm" :: args => handleAsm args
   | "asmx" :: args => handleAsmX args
+  | "ovr" :: args => handleOvr args
   | _ => "bad-op"
 
 partial def loopWrapC (h : IO.FS.Stream) (out : IO.FS.Stream) : IO Unit := do
